@@ -13,7 +13,7 @@ from vf.vtime import run_virtual
 class MemECUTransport:
     """Duck-typed BaseTransport whose peer is a UDSServer instance behind UDSServerTransport.handle_request."""
 
-    def __init__(self, server: Any, wire: list[tuple[int, bytes, bytes | None]], budget: int) -> None:
+    def __init__(self, server: Any, wire: list[tuple[int, bytes, bytes | None]], budget: int, after_reply: Any = None) -> None:
         from gallia.services.uds.server import UDSServerTransport
         from gallia.transports import TargetURI
 
@@ -25,6 +25,7 @@ class MemECUTransport:
         self.queue: asyncio.Queue[bytes] = asyncio.Queue()
         self.wire = wire
         self.budget = budget
+        self.after_reply = after_reply
 
     async def write(self, data: bytes, timeout: float | None = None, tags: list[str] | None = None) -> int:
         if len(self.wire) >= self.budget:
@@ -32,6 +33,8 @@ class MemECUTransport:
         session = self.server.state.session
         reply, _ = await self.st.handle_request(bytes(data))
         self.wire.append((session, bytes(data), reply))
+        if self.after_reply is not None:
+            self.after_reply(self.server, bytes(data), reply)  # ECU-side effect after the reply left (e.g. fallback to the default session)
         if reply is not None:
             self.queue.put_nowait(reply)
         return len(data)
@@ -91,14 +94,15 @@ class ResultTap(logging.Handler):
             self.all.append((record.levelno, msg))
 
 
-def run_scanner(scanner_cls: Any, config: Any, server: Any, budget: int = 200000, with_db_stub: bool = True, max_virtual: float = 5e6) -> dict[str, Any]:
+def run_scanner(scanner_cls: Any, config: Any, server: Any, budget: int = 200000, with_db_stub: bool = True, max_virtual: float = 5e6,
+                after_reply: Any = None) -> dict[str, Any]:
     wire: list[tuple[int, bytes, bytes | None]] = []
     box: dict[str, Any] = {}
     tap = ResultTap()
 
     async def go() -> None:
         await server.setup()
-        tr = MemECUTransport(server, wire, budget)
+        tr = MemECUTransport(server, wire, budget, after_reply)
 
         class Loader:
             @classmethod
